@@ -200,8 +200,11 @@ def _varint_block(scope, sfx, ty):
   proof { broadcast use axiom_venc_len_%(ty)s; }
 //@@end
 //@@fn file=bytes.rs src=expanded scope="%(scope)s" name=put_%(ty)s_varint_unchecked rename=put_%(ty)s_varint_unchecked%(sfx)s xlate=plain props=C14
-//@subst /let buf = unsafe \\{\\s*core::slice::from_raw_parts_mut\\(self\\.as_mut_ptr\\(\\)\\.add\\((.+?)\\), (.+?)\\)\\s*\\}\\s*;/ => let p__ = self.as_mut_ptr%(sfx)s(); let buf = self.win_from_raw_parts(p__.add(\\1), \\2);
+//@subst? /let buf = unsafe \\{\\s*core::slice::from_raw_parts_mut\\(self\\.as_mut_ptr\\(\\)\\.add\\((.+?)\\), (.+?)\\)\\s*\\}\\s*;/ => let p__ = self.as_mut_ptr%(sfx)s(); let buf = self.win_from_raw_parts(p__.add(\\1), \\2);
+//@subst? /let buf = self\\.buffer_mut%(sfx)s\\(\\);/ => let buf = self.win_whole();
+//@subst? /let buf = self\\.buffer_mut\\(\\);/ => let buf = self.win_whole();
 //@subst /dbutils::leb128::encode_%(ty)s_varint_to\\(value, buf\\)/ => self.buf_encode_varint_%(ty)s(value, buf)
+//@subst? /(self\\.buf_encode_varint_%(ty)s\\(value, buf\\))\\.unwrap\\(\\)/ => match \\1 { Ok(v__) => v__, Err(_) => rt_panic_documented_val() }
 //@subst? /self\\.capacity\\(\\)/ => self.capacity%(sfx)s()
 //@contract
   requires old(self).inv(), %(nullreq)s
@@ -211,7 +214,7 @@ def _varint_block(scope, sfx, ty):
     final(self).only_touched(*old(self), old(self).len as int, old(self).cap()), // [C14]
     r as int == spec_venc_%(ty)s(value).len() && final(self).len == old(self).len + r
       && final(self).mem@.subrange(old(self).off() + old(self).len as int, old(self).off() + old(self).len as int + r as int) == spec_venc_%(ty)s(value), // [C14]
-//@before 1 /let p__ = /
+//@before 1 /let buf = /
   proof { broadcast use axiom_venc_len_%(ty)s; }
 //@@end
 //@@fn file=bytes.rs src=expanded scope="%(scope)s" name=get_%(ty)s_varint rename=get_%(ty)s_varint%(sfx)s xlate=plain props=C14
